@@ -350,6 +350,14 @@ class ExecGen:
                 out.append(ch.choice(["end where", "endwhere"]))
             elif k == "blockc":
                 out.append("block")
+                if "block_locals" not in self.excl and ch.bool(1, 2):
+                    # an array of the construct's own: references to it are no calls
+                    self.nblk = getattr(self, "nblk", 0) + 1
+                    ba = f"blk_arr{self.nblk}"
+                    out.append({"text": f"integer :: {ba}(4)", "nobreak": True})
+                    out.append(f"{ba}(1) = {self.iexpr(1)}")
+                    out.append(f"{ch.choice(self.s.ints)} = {ba}(2) + {ba} (3)")
+                    self.forms.add("block-local-array")
                 out += self.block(depth + 1)
                 out.append("end block")
             elif k == "labelled":
